@@ -627,9 +627,10 @@ class RamStorage(Storage):
         return BufferFile(buf, name=name, **kwargs)
 
     def lock(self, name):
-        if name not in self.locks:
-            self.locks[name] = Lock()
-        return self.locks[name]
+        # setdefault is atomic: with a separate membership test and insert, two
+        # threads asking for the same name at the same time could each create
+        # (and then acquire) a lock of their own
+        return self.locks.setdefault(name, Lock())
 
     def temp_storage(self, name=None):
         tdir = tempfile.gettempdir()
